@@ -24,7 +24,7 @@ IntOf(c) ==
     [] c = "-8" -> INat(-8) [] c = "10" -> INat(10) [] c = "16" -> INat(16) [] c = "20" -> INat(20)
     [] c = "36" -> INat(36) [] c = "37" -> INat(37) [] c = "63" -> INat(63) [] c = "64" -> INat(64)
     [] c = "-64" -> INat(-64) [] c = "65" -> INat(65) [] c = "128" -> INat(128) [] c = "1000" -> INat(1000)
-    [] c = "w" -> W64 [] c = "big" -> BigU [] c = "-big" -> INeg(BigU)
+    [] c = "w" -> W64 [] c = "big" -> BigU [] c = "-big" -> INeg(BigU) [] c = "big+1" -> IAdd(BigU, INat(1))
     [] c = "u32max" -> U32MAX [] c = "huge" -> USIZE_MAX [] c = "imax" -> ISIZE_MAX [] c = "imin" -> ISIZE_MIN
     [] c = "2^24" -> I(0, <<0, 0, 0, 1>>) [] c = "2^62" -> P2_62 [] c = "-2^62" -> INeg(P2_62) [] c = "2^70" -> P2_70 [] c = "-2^70" -> INeg(P2_70)
 
@@ -82,7 +82,7 @@ After(s, ch) == SubSeq(s, SplitAt(s, ch) + 1, Len(s))
 
 \* ------------------------------------------------------------------ axes
 Cl(axis, tier) ==
-  CASE axis = "U" -> <<"0", "1", "2", "4", "7", "w", "big">>
+  CASE axis = "U" -> <<"0", "1", "2", "4", "7", "w", "big", "big+1">>
     [] axis = "I" -> <<"0", "1", "-1", "2", "7", "-7", "-8", "big", "-big">>
     [] axis = "Nroot" -> <<"0", "1", "2", "3", "64", "huge">>
     [] axis = "Npow" -> <<"0", "1", "2", "3", "64", "huge">>
